@@ -1126,7 +1126,7 @@ def run(ctx: core.Ctx):
             kind="concrete",
             match_info={"entry": small["entry"], "failure": (what or w).split(":")[0], "engine": small["engine"], "sqlite_compound_select_limit": limit},
         )
-    if not concrete:
+    if not ctx.violations:  # no NEW concrete violation (none at all, or only ones a registered known finding describes)
         if broken:
             c, w, r = broken[0]
             ctx.violation(
